@@ -2,7 +2,7 @@
 
 stmt := ("o", text) | ("p", var) | ("a", mod, attr) | ("s", var, ("c", text) | ("v", var)) | ("m", name, text)
       | ("i", [targets], is_list, with_ctx, ignore) | ("I", target, alias, with_ctx)
-      | ("F", target, [(name, alias)], with_ctx) | ("S", kind, var, [vals], [stmts])     kind: f / w / m
+      | ("F", target, [(name, alias)], with_ctx) | ("S", kind, var, [vals], [stmts])     kind: f / w / m / b (block rendered in place) / B (scoped block)
 target := ("n", template name) | ("o", template name)     (by name / Template object in a data variable)
 tset := {"templates": {name: {"globals": {...}, "body": [stmts]}}, "main": name, "data": {...},
          "env_globals": {...}}
@@ -68,6 +68,11 @@ class Src:
                     out.append("{%% with %s = %r %%}" % (v, vals[0]))
                     self.stmts(body, out)
                     out.append("{% endwith %}")
+                elif kind in ("b", "B"):
+                    self.n += 1
+                    out.append("{%% block blk%d%s %%}" % (self.n, " scoped" if kind == "B" else ""))
+                    self.stmts(body, out)
+                    out.append("{% endblock %}")
                 else:
                     self.n += 1
                     me = self.n
@@ -284,8 +289,8 @@ class IGen:
                               r.choice([None, None, True, False])])
                 will.update(a for _, a in names)
             elif k < 0.84 and depth < 2:
-                kind = r.choice(["f", "w", "m"])
-                v = {"f": r.choice(["i", "j"]), "w": "w", "m": "k"}[kind]
+                kind = r.choice(["f", "w", "m", "b", "B", "B"])
+                v = {"f": r.choice(["i", "j"]), "w": "w", "m": "k", "b": "k", "B": "k"}[kind]
                 vals = [self.word() for _ in range(r.randint(0, 3) if kind == "f" else 1)]
                 stmts.append(["S", kind, v, vals, None])
             elif k < 0.93:
@@ -330,7 +335,8 @@ class IGen:
                 assigned.update(a for _, a in s[2])
             elif s[0] == "S":
                 inner_later = blocked
-                body = self.body(tname, tnames, False, depth + 1, assigned | {s[2]}, inner_later)
+                body = self.body(tname, tnames, False, depth + 1,
+                                 (assigned if s[1] in ("b", "B") else assigned | {s[2]}), inner_later)
                 out.append(("S", s[1], s[2], s[3], body))
             else:
                 out.append(("o", s[1]))
@@ -395,6 +401,19 @@ def directed_sets():
                     body = [("S", scope, v, ["1", "2"] if scope == "f" else ["1"], inner)] + h()
                 out.append({"templates": {"main": {"globals": {}, "body": body}, "t1": probe_t},
                             "main": "main", "data": data, "env_globals": {"g": "G"}, "objects": []})
+    # template-level globals of the importing template seen by imports made in every kind of scope (also a scoped
+    # block inside a loop: Context.derived) and by includes without context made there
+    glob_t = {"globals": {}, "body": [("o", "<"), ("p", "mg"), ("p", "g"), ("o", ">"), ("s", "c", ("v", "mg"))]}
+    for scope in ("top", "f", "w", "m", "b", "B", "fB", "Bf"):
+        for data in ({}, {"mg": "DMG"}):
+            inner = [("I", ("n", "t1"), "m1", None), ("a", "m1", "c"), ("F", ("n", "t1"), [("c", "q1")], None), ("p", "q1"),
+                     ("i", [("n", "t1")], False, False, False), ("i", [("n", "t1")], False, None, False)]
+            body = inner
+            for k in reversed(scope if scope != "top" else ""):
+                v = {"f": "i", "w": "w", "m": "k", "b": "k", "B": "k"}[k]
+                body = [("S", k, v, ["1"], body)]
+            out.append({"templates": {"main": {"globals": {"mg": "MG"}, "body": body}, "t1": glob_t},
+                        "main": "main", "data": data, "env_globals": {"g": "G"}, "objects": []})
     # include lists / partially cached candidates: t2 is loaded first (by an include or an import), then a
     # list [t1, t2] / [nope, t1, t2] must still select t1
     for first in ([("i", [("n", "t2")], False, None, False)], [("I", ("n", "t2"), "m2", None)],
